@@ -58,6 +58,11 @@ class DifferentialOperator(LinearOperator):
             atom    = get_atom_logical_derivatives(expr)
             indices = get_index_logical_derivatives(expr)
 
+            # only the leading chain is re-ordered: logical derivatives buried
+            # inside the atom (below a physical derivative) stay where they are
+            for key, n in get_index_logical_derivatives(atom).items():
+                indices[key] -= n
+
             if cls in _logical_partial_derivatives:
                 indices[cls.coordinate] += 1
 
